@@ -343,6 +343,20 @@ impl ProcfsHandle {
         let subpath = subpath.as_ref();
         let mut oflags = oflags.into();
 
+        // ProcfsHandle::open() refuses these flags in the resolver, but the
+        // final open of a magic-link below does not go through it. They make
+        // no sense for procfs (nor for re-opening a handle through its fd
+        // magic-link, where O_CREAT|O_EXCL would just give EEXIST and O_TMPFILE
+        // would create an unnamed file in a directory handle).
+        if oflags.intersects(OpenFlags::O_CREAT | OpenFlags::O_EXCL)
+            || oflags.contains(OpenFlags::O_TMPFILE)
+        {
+            Err(ErrorImpl::InvalidArgument {
+                name: "flags".into(),
+                description: "O_CREAT, O_EXCL and O_TMPFILE cannot be used with procfs handles or reopen".into(),
+            })?
+        }
+
         // Drop any trailing /-es.
         let (subpath, trailing_slash) = utils::path_strip_trailing_slash(subpath);
         if trailing_slash {
